@@ -15,6 +15,11 @@
 // storm.go), convoy (real scheduler: calls piled up in front of the Manager's
 // lock, among them several concurrent calls of the same done func, convoy.go)
 // and stress (real scheduler, acquire/hold/release churn, stress_test.go).
+// outside (outside.go): the stepwise engine with things that happen to a
+// handed-out connection outside the manager - holders that call Close() on the
+// connection they were handed, dial functions that hand back a closed one,
+// connectivity changes, one done func called from several goroutines; the same
+// events are sprinkled into random, wide, storm and stress.
 //
 // The spelling of the addresses is data of every part (names.go: mixed case,
 // ports, brackets, schemes, white space, non-ASCII, long, empty). Further parts:
